@@ -524,7 +524,7 @@ func runC13(c *Ctx) {
 				continue
 			}
 			if e, nn, ok := nilTest(cf.Cond); ok && (nn == 0) == cf.Val && holder != nil {
-				if e == holder {
+				if e == holder || capturedLoad(e) == capturedLoad(holder) {
 					continue
 				}
 				// equal reloads of the same field (t.headerRow tested, then loaded again)
